@@ -303,6 +303,23 @@ theorem morgan_bit_set_equivariant (H : TupleHash) (f : Nat → Nat) (m m' : Mol
           (morgan_hash_set_equivariant H f m m' R hwf hwf' lo hi h1 h2 hs hs' hh hh') b
 
 
+/-! ## no exception inside the documented grid -/
+
+/-- inside the grid (`1 ≤ lo ≤ hi`, `length ≥ 1`) `linear_bit_set` raises nothing on a well-formed molecule -/
+theorem linear_bit_set_total (H : TupleHash) (m : Mol) (hwf : m.WF = true) (lo hi length nab nbp : Int) (h1 : 1 ≤ lo)
+    (h2 : lo ≤ hi) (hl : 1 ≤ length) : ∃ bits, linearBitSet H m lo hi length nab nbp = .ok bits := by
+  obtain ⟨d, _, he⟩ := linear_hash_set_exact H m hwf lo hi nbp h1 h2
+  have : ¬ length ≤ 0 := by omega
+  refine ⟨activeBits length.toNat nab (hashesOfDict H nbp d), ?_⟩
+  simp [linearBitSet, this, he, bind, Except.bind, pure, Except.pure]
+
+/-- likewise `morgan_bit_set` -/
+theorem morgan_bit_set_total (H : TupleHash) (m : Mol) (hwf : m.WF = true) (lo hi length nab : Int) (h1 : 1 ≤ lo)
+    (h2 : lo ≤ hi) (hl : 1 ≤ length) : ∃ bits, morganBitSet H m lo hi length nab = .ok bits := by
+  have : ¬ length ≤ 0 := by omega
+  simp only [morganBitSet, morganHashSet, this, morgan_layers H m hwf lo hi h1 h2, bind, Except.bind, pure, Except.pure, if_false]
+  exact ⟨_, rfl⟩
+
 /-! ## regenerated facts about the source (Gen/C17Cache.lean): memoisation and defaults -/
 
 open ChythonModel.Gen.C17 in
